@@ -1059,4 +1059,55 @@ theorem slice_count_no_overflow (n k : Int) (hn : 0 ≤ n ∧ n ≤ i64Max) (_hk
   simp only [i64Min, i64Max] at *
   exact ⟨by omega, fun h1 h2 => by omega⟩
 
+/-! ## §10 `$elemMatch` counts as an inclusion for the mixing check -/
+
+theorem projProcess_entry_includes {sch : SchemaEval} {d : Doc} (p : String) (v : V)
+    (hent : ∀ s0 s1, projEntry sch s0 d p v = .ok s1 → p ∈ s1.includes) (proj : List (String × V)) :
+    ∀ {s s' : PState}, projProcess sch s d proj = .ok s' → (p, v) ∈ proj → p ∈ s'.includes := by
+  induction proj with
+  | nil => intro _ _ _ hm; simp at hm
+  | cons kv r ih =>
+    obtain ⟨k, v0⟩ := kv
+    intro s s' h hm
+    rw [projProcess_cons] at h
+    split at h
+    · cases h
+    · next s1 h1 =>
+      rcases List.mem_cons.mp hm with e | hm'
+      · cases e
+        exact (projProcess_le _ h).inc.subset (hent s s1 h1)
+      · exact ih h hm'
+
+theorem projEntry_elemMatch_includes (sch : SchemaEval) (d : Doc) (p : String) (q : V)
+    (hop : isOpKey "$elemMatch" = true) (s0 s1 : PState)
+    (h : projEntry sch s0 d p (.doc [("$elemMatch", q)]) = .ok s1) : p ∈ s1.includes := by
+  have h1 : ("$elemMatch" == "") = false := by decide
+  have h2 : ("$elemMatch" == "$slice") = false := by decide
+  simp only [projEntry, hop, ↓reduceIte, projOps, Bool.not_true, Bool.false_eq_true, projOp, h1, h2,
+    beq_self_eq_true] at h
+  split at h
+  · cases h
+  · cases hp : projectElemMatch sch s0 d p q with
+    | error e => simp [hp] at h
+    | ok s2 =>
+      simp only [hp, Except.ok.injEq] at h
+      rw [← h]; exact (projectElemMatch_le hp).2
+
+/-- `$elemMatch` on one path together with an exclusion flag on another (non-`_id`) path is an error -/
+theorem mix_elemMatch_error (sch : SchemaEval) (d proj : Doc) (pi pe : String) (q ve : V)
+    (hop : isOpKey "$elemMatch" = true)
+    (hi : (pi, .doc [("$elemMatch", q)]) ∈ proj)
+    (he : (pe, ve) ∈ proj) (fe : flagOf ve = some false) (hne : pe ≠ "_id") :
+    (∀ st, projProcess sch {} d proj = .ok st → Project sch d proj = .error .err) ∧
+    (∀ e, projProcess sch {} d proj = .error e → Project sch d proj = .error e) := by
+  constructor
+  · intro st h
+    have h1 := projProcess_entry_includes pi _ (projEntry_elemMatch_includes sch d pi q hop) proj h hi
+    have h2 := (projProcess_registers proj h pe ve false he fe).2.1 rfl hne
+    rw [Project_eq, h]
+    have e1 : st.includes.isEmpty = false := by cases hh : st.includes <;> simp_all
+    have e2 : st.excludes.isEmpty = false := by cases hh : st.excludes <;> simp_all
+    simp [projectFinish, e1, e2]
+  · intro e h; rw [Project_eq, h]
+
 end Lungo
